@@ -340,6 +340,11 @@ def no_hidden_state(ctx, R, rule_id, modules, classes=None, allow=()):
                     hits = []
                     for m in P.funcs.values():
                         nodes = list(walk_local(m.node))
+                        # locals bound to the class-level object itself:  attrib = self.dot_attrib
+                        aliases = set()
+                        for n in nodes:
+                            if isinstance(n, ast.Assign) and len(n.targets) == 1 and isinstance(n.targets[0], ast.Name) and isinstance(n.value, ast.Attribute) and n.value.attr == name and isinstance(n.value.value, ast.Name):
+                                aliases.add(n.targets[0].id)
                         for n in nodes:
                             base = None
                             if isinstance(n, ast.Call) and isinstance(n.func, ast.Attribute) and n.func.attr in MUTATORS:
@@ -348,6 +353,8 @@ def no_hidden_state(ctx, R, rule_id, modules, classes=None, allow=()):
                                 for tt in (n.targets if not isinstance(n, ast.AugAssign) else [n.target]):
                                     if isinstance(tt, ast.Subscript):
                                         base = tt.value
+                            if isinstance(base, ast.Name) and base.id in aliases:
+                                base = ast.Attribute(value=ast.Name(id="self", ctx=ast.Load()), attr=name, ctx=ast.Load())
                             if isinstance(base, ast.Attribute) and base.attr == name and isinstance(base.value, ast.Name):
                                 # self.X / cls.X / Class.X
                                 rebinds = any(isinstance(k, ast.Assign) and any(isinstance(z, ast.Attribute) and z.attr == name and isinstance(z.value, ast.Name) and z.value.id == "self" for z in k.targets) for mm in c.methods.values() for k in ast.walk(mm.node))
